@@ -13,6 +13,10 @@ import Strophe.Lemmas.ConnC05
 namespace Strophe.C05
 open Strophe Strophe.Conn Strophe.Lemmas.ConnC05
 
+/-- the buffers the counters are printed into hold every 32-bit value (10 digits and the
+    terminator): the model prints the counter exactly, the code does so only with room for it -/
+theorem pin_h_buffers : ∀ n ∈ Gen.smHBufSizes, 11 ≤ n := by decide
+
 theorem handled_is_dispatch_count (jid pass : Option Bytes) (cert : Bool) (flags : Nat) (ops : List Op) :
     let c := exec (fresh jid pass cert flags) ops
     c.sm.handledNr = UInt32.ofNat (countSince c.rxLog) :=
